@@ -12,9 +12,11 @@
      parse_num : str -> res Q     Ok a         the rational the text denotes
                                   Err e        the exception that left the
                                                second parser (Fraction(s))
-   Quantity.__new__ catches TypeError / ValueError of the parsers and turns
-   them into QuantityError; any other exception of the parser (Fraction('1/0')
-   raises ZeroDivisionError) passes through unchanged. *)
+   Quantity.__new__ catches TypeError / ValueError of both parsers and, since
+   repo commit 046398b, ZeroDivisionError of the Fraction fallback
+   (Fraction('1/0')) and turns them into QuantityError; any other exception of
+   the parser passes through unchanged.  (decimalfp's Decimal(s) never raises
+   ZeroDivisionError, so one outcome per text suffices.) *)
 From QV Require Export Model.Num Model.Rounding Gen.RoundingImpl Model.Quantity.
 Open Scope N_scope.
 
@@ -157,7 +159,8 @@ Definition parse_qty (d : directory) (ce : convenv) (dm : mode)
            (c : caller) (ua : uarg) (text : str) : res qty :=
   let (s_amount, rest) := split_first_blank (lstrip text) in
   match parse_num s_amount with
-  | Err ETypeError | Err EValueError => Err EQuantityError   (* "Can't convert ..." *)
+  | Err ETypeError | Err EValueError | Err EZeroDivision =>
+      Err EQuantityError                                     (* "Can't convert ..." *)
   | Err e => Err e
   | Ok a =>
     match rest with
